@@ -173,22 +173,32 @@ def tree_repr(node, m):
 
 # ---------------------------------------------------------------- hosts
 TOK = {"www.": "www.", "api.": "api.", "example": "example", ".com": ".com", ":8000": ":8000"}
+def E(opt, *lit):
+    return {"opt": opt, "lit": tuple(lit)}
+
+
+# a pattern is a tuple of alternatives (top-level a|b), each a tuple of elements
 PATTERNS = [
-    ({"opt": True, "lit": ("www.",)}, {"opt": False, "lit": ("example", ".com")}),
-    ({"opt": False, "lit": ("api.", "example")}, {"opt": False, "lit": (".com",)}),
-    ({"opt": False, "lit": ("example", ".com")},),
-    ({"opt": False, "lit": ("example",)}, {"opt": False, "lit": (".com",)}, {"opt": True, "lit": (":8000",)}),
-    ({"opt": True, "lit": ("api.",)}, {"opt": True, "lit": ("www.",)}, {"opt": False, "lit": ("example",)}),
+    ((E(True, "www."), E(False, "example", ".com")),),
+    ((E(False, "api.", "example"), E(False, ".com")),),
+    ((E(False, "example", ".com"),),),
+    ((E(False, "example"), E(False, ".com"), E(True, ":8000")),),
+    ((E(True, "api."), E(True, "www."), E(False, "example")),),
+    ((E(False, "example", ".com"),), (E(False, "www.", "example", ".com"),)),          # example\.com|www\.example\.com
+    ((E(False, "api."),), (E(False, "example"), E(True, ".com"))),                    # api\.|example(\.com)?
 ]
 HCONC = [TOK, {"www.": "WWW.", "api.": "a-p.i.", "example": "ex+ample", ".com": ".c(om", ":8000": ":80[00"}]
 
 
 def regex(pat, m):
-    out = ""
-    for e in pat:
-        lit = re.escape("".join(m[t] for t in e["lit"]))
-        out += "(%s)?" % lit if e["opt"] else lit
-    return out
+    alts = []
+    for alt in pat:
+        out = ""
+        for e in alt:
+            lit = re.escape("".join(m[t] for t in e["lit"]))
+            out += "(%s)?" % lit if e["opt"] else lit
+        alts.append(out)
+    return "|".join(alts)
 
 
 def run_hosts(ctx, tier):
@@ -196,7 +206,7 @@ def run_hosts(ctx, tier):
     for n in (1, 2, 3):
         tabs += [tuple(t) for t in itertools.permutations(PATTERNS, n)]
     if tier == "quick":
-        tabs = tabs[::2]
+        tabs = tabs[::4]
     toks = list(TOK)
     vals = []
     for n in range(0, 4 if tier == "quick" else 5):
